@@ -77,6 +77,98 @@ func src(n ast.Node) string {
 	return strings.Join(strings.Fields(b.String()), " ")
 }
 
+// localsOf: the names declared INSIDE fd's body (:=, var, range, parameters of function
+// literals), each mapped to a positional placeholder ‹k› (k = order of first declaration).
+// Receivers, parameters, fields and package-level names are not in the map.
+func localsOf(fd *ast.FuncDecl) map[string]string {
+	m := map[string]string{}
+	if fd == nil || fd.Body == nil {
+		return m
+	}
+	add := func(e ast.Expr) {
+		if id, ok := e.(*ast.Ident); ok && id.Name != "_" {
+			if _, seen := m[id.Name]; !seen {
+				m[id.Name] = fmt.Sprintf("‹%d›", len(m))
+			}
+		}
+	}
+	ast.Inspect(fd.Body, func(n ast.Node) bool {
+		switch x := n.(type) {
+		case *ast.AssignStmt:
+			if x.Tok == token.DEFINE {
+				for _, l := range x.Lhs {
+					add(l)
+				}
+			}
+		case *ast.RangeStmt:
+			if x.Tok == token.DEFINE {
+				if x.Key != nil {
+					add(x.Key)
+				}
+				if x.Value != nil {
+					add(x.Value)
+				}
+			}
+		case *ast.ValueSpec:
+			for _, id := range x.Names {
+				add(id)
+			}
+		case *ast.FuncLit:
+			if x.Type.Params != nil {
+				for _, f := range x.Type.Params.List {
+					for _, id := range f.Names {
+						add(id)
+					}
+				}
+			}
+		}
+		return true
+	})
+	return m
+}
+
+// srcL prints n like src, with the locals of its function replaced by their placeholders:
+// renaming a local variable does not change the fact.  Field selectors and composite-literal
+// keys are left alone.
+func srcL(n ast.Node, locals map[string]string) string {
+	if len(locals) == 0 {
+		return src(n)
+	}
+	type saved struct {
+		id   *ast.Ident
+		name string
+	}
+	var sv []saved
+	var walk func(n ast.Node)
+	walk = func(n ast.Node) {
+		ast.Inspect(n, func(m ast.Node) bool {
+			switch x := m.(type) {
+			case *ast.SelectorExpr:
+				walk(x.X)
+				return false
+			case *ast.KeyValueExpr:
+				if _, ok := x.Key.(*ast.Ident); !ok {
+					walk(x.Key)
+				}
+				walk(x.Value)
+				return false
+			case *ast.Ident:
+				if ph, ok := locals[x.Name]; ok {
+					sv = append(sv, saved{x, x.Name})
+					x.Name = ph
+				}
+			}
+			return true
+		})
+	}
+	walk(n)
+	out := src(n)
+	for _, s := range sv {
+		s.id.Name = s.name
+	}
+	return out
+}
+
 // funcDecl finds a function or method ("Recv.Name" or "Name") in a package dir.
 func (p *pkgFiles) funcDecl(name string) *ast.FuncDecl {
 	for _, fn := range p.sortedFiles() {
